@@ -40,12 +40,17 @@ const (
 	vkPoisonA  = "6.6.6.6" // the address every forged record / glue carries; routed to the trap listener
 	vkLoopback = "127.0.0.1"
 	vkUnspec   = "0.0.0.0"
+	vkDotLabel = `x\.z`    // relative owner in t.
+	vkDotName  = `x\.z.t.` // the same, fully qualified
 )
 
 func vkUniverse() *zonemodel.Universe {
 	u := zonemodel.NewUniverse("c07")
 	u.AddZone(zonemodel.ZoneSpec{Apex: ".", Mode: zonemodel.NSEC, Alg: zonemodel.AlgED25519})
-	u.AddZone(zonemodel.ZoneSpec{Apex: "t.", Mode: zonemodel.NSEC, Alg: zonemodel.AlgED25519})
+	tld := u.AddZone(zonemodel.ZoneSpec{Apex: "t.", Mode: zonemodel.NSEC, Alg: zonemodel.AlgED25519})
+	// a name of the TLD zone whose first label CONTAINS a dot: `x\.z.t.` is one label "x.z" under t. -
+	// it only looks like a name below the attacker's zone z.t.
+	tld.Add(vkDotLabel + " A 192.0.2.84")
 	z := u.AddZone(zonemodel.ZoneSpec{Apex: vkAttZone, Mode: zonemodel.Unsigned})
 	s := u.AddZone(zonemodel.ZoneSpec{Apex: vkAttChild, Mode: zonemodel.Unsigned})
 	v := u.AddZone(zonemodel.ZoneSpec{Apex: vkVictim, Mode: zonemodel.Unsigned, NSAddr: vkVictimNS})
